@@ -36,7 +36,9 @@ func harnessC07Step(nMembers, op int) {
 					} else {
 						verifAssert(now.modeGiven == defGiven, "first-subscription-gets-the-default-grant")
 					}
-				} else if u == ownerBefore {
+				} else if u == ownerBefore || (u == t.owner && old.modeGiven.IsOwner()) {
+					// the owner - or a transferee holding the owner's grant who accepts ownership in this very
+					// step - may grant itself anything
 					verifAssert(now.modeGiven&old.modeGiven == old.modeGiven, "owner-only-raises-own-grant")
 				} else {
 					// an approver of a group may raise its own grant by anything except O and D
@@ -100,6 +102,16 @@ func Harness_C07_resub_prev_grant() {
 	verifPrevBase = types.ModeNone
 	verifForceActor = 2 // the former member
 	harnessC07Step(2, verifOpSub)
+}
+// An approver (and anybody else) changing its own subscription with the delete bit in play: D is symbolic in
+// every mode in addition to O, J, A, S.
+func Harness_C07_self_with_delete_bit() {
+	verifSubBits |= types.ModeDelete
+	harnessC07Step(2, verifOpSetSelf)
+}
+func Harness_C07_other_with_delete_bit() {
+	verifSubBits |= types.ModeDelete
+	harnessC07Step(2, verifOpSetOther)
 }
 func Harness_C07_step_3_sub()      { harnessC07Step(3, verifOpSub) }
 func Harness_C07_step_3_setself()  { harnessC07Step(3, verifOpSetSelf) }
